@@ -79,7 +79,7 @@ SCALARS = {
     'unsigned long long': 'unsigned long long', 'long long': 'long long', 'signed char': 'signed char',
     'float': 'float', 'double': 'double', 'time_t': 'long', 'uintptr_t': 'uintptr_t', 'intptr_t': 'intptr_t',
     'ptrdiff_t': 'ptrdiff_t', 'std::ptrdiff_t': 'ptrdiff_t', 'off_t': 'long', 'pid_t': 'int', 'socklen_t': 'unsigned int',
-    'iovec': 'struct iovec', 'timezone': 'struct timezone', 'tm': 'struct tm', 'epoll_event': 'struct epoll_event', 'fd_set': 'fd_set', '__fd_mask': 'long', '__sigset_t': 'sigset_t', 'sigset_t': 'sigset_t', 'sigaction': 'struct sigaction', 'siginfo_t': 'siginfo_t', 'timeval': 'struct timeval', 'timespec': 'struct timespec', 'sockaddr_in': 'struct sockaddr_in', 'sockaddr': 'struct sockaddr', 'socklen_t': 'socklen_t',
+    'iovec': 'struct iovec', 'timezone': 'struct timezone', 'tm': 'struct tm', 'epoll_event': 'struct epoll_event', 'fd_set': 'fd_set', '__fd_mask': 'long', '__sigset_t': 'sigset_t', 'sigset_t': 'sigset_t', 'sigaction': 'struct sigaction', 'siginfo_t': 'siginfo_t', 'timeval': 'struct timeval', 'timespec': 'struct timespec', 'sockaddr_in': 'struct sockaddr_in', 'sockaddr': 'struct sockaddr', 'socklen_t': 'socklen_t', 'ucontext_t': 'ucontext_t', 'stack_t': 'stack_t',
     '__uint8_t': 'uint8_t', '__uint16_t': 'uint16_t', '__uint32_t': 'uint32_t', '__uint64_t': 'uint64_t',
 }
 INT_RANGE = {
@@ -1722,7 +1722,7 @@ class Unit:
         if self.models and self.models.is_model_type(ct) and not is_ref and '*' not in ct:
             self.models.local_object(self, v, ct, name, ks, p)
             return
-        SYS = ('struct iovec', 'struct timeval', 'struct timespec', 'struct timezone', 'struct tm', 'struct epoll_event', 'fd_set', 'sigset_t', 'struct sigaction', 'struct sockaddr_in', 'struct sockaddr')
+        SYS = ('struct iovec', 'struct timeval', 'struct timespec', 'struct timezone', 'struct tm', 'struct epoll_event', 'fd_set', 'sigset_t', 'struct sigaction', 'struct sockaddr_in', 'struct sockaddr', 'ucontext_t', 'stack_t')
         if ct.startswith('struct ') and not ct.strip().endswith('*') and not is_ref and '[' not in txt and ct not in SYS:
             rec = ct[len('struct '):].strip()
             ce = self.strip_tmp(ks[0]) if ks else None
